@@ -712,7 +712,7 @@ def run(tier, seed):
             add(U.random_string(rng, 5, U.ATOMS), "rand-short")
             add(U.random_string(rng, 14), "rand")
         grammar = []
-        for _ in range(40000 if thorough else 2500):
+        for _ in range(40000 if thorough else 2000):
             t = U.gen_tag(rng, canonical=rng.random() < 0.2, depth=rng.choice([1, 2, 3]))
             grammar.append(t)
             add(t, "grammar")
@@ -900,7 +900,7 @@ def run(tier, seed):
                 bitlists.add(tuple(seq))
         for seq in itertools.product(fatoms[:9], repeat=3):
             bitlists.add(tuple(seq))
-        for t in pool[: (20000 if thorough else 1500)]:
+        for t in pool[: (20000 if thorough else 700)]:
             try:
                 bitlists.add(tuple(smart_split(t))[:8])
             except Exception:  # noqa
